@@ -75,6 +75,14 @@ CLAIMED["C18"] = {
     "technique": "guard-dominance facts + value terms of pointer/stride/count + who-may-construct / who-writes census + layout table",
 }
 
+CLAIMED["C19"] = {
+    "category": "other",
+    "text": "Premises of the cursor lemma decided on MIR: sections() establishes n * entry_size <= len(sections) (64-bit product of the zero-extended fields) and shndx == 0 || shndx < n, with diverging failing edges; next() has a single loop with exactly one cursor advance by entry_size and one counter decrement per iteration, hands out the loop-head cursor, yields iff section_type() != Unused and stops iff the counter is 0; get()/string_table() classify entry_size exactly {40 -> ELF32 struct, 64 -> ELF64 struct, else panic} with matching pointee types; both header structs equal the gABI layouts and every decoding method reads its specified field; the SHT table.",
+    "design_ref": "DESIGN.md §4 C19",
+    "note": TB + "; name()/string_table() follow an address stored in the tag (documented external memory) and are outside the bounds claim; cursor = base + (n - remaining) * es is a hand proof over the decided premises",
+    "technique": "guard facts incl. disjunctive merge facts + loop-carried variable pairing + exact interval classifier + layout/read-set tables",
+}
+
 PENDING = "check not yet built in this session (machinery under construction; see DESIGN.md §9 build order) - not claimed until its premises run, pass on the repaired tree and fire on seeded breaks"
 NOT_APPLICABLE = {("C%02d" % i): PENDING for i in range(1, 21)}
 
